@@ -738,6 +738,9 @@ func init() {
 		flowCase(c, "outage", 1040)
 		flowCase(c, "flood", 1040)
 		flowCase(c, "flood", 100)
+		// a transport that stays stalled for two seconds after the request channel has filled up: deadlines of the lookups
+		flowCaseHold(c, "burst", 1040, 2*time.Second)
+		flowCaseHold(c, "burst", 100, 500*time.Millisecond)
 	}
 	props["C06"] = runAll
 	props["C07"] = func(c *ctx) {
